@@ -33,7 +33,7 @@ ASSUMPTIONS = [
 ]
 MUST_REACH = {
     "roundtrips": 400, "templates_covered": 481, "zerocoded": 20, "with_acks": 20, "with_extra": 20,
-    "fill_cases": 50, "fill_mixed_marks_in_one_list": 10, "failed_serializations_before_good_ones": 30, "fill_unset_fixed": 1, "fill_unset_variable": 1, "omitted_trailing": 5, "count_255": 1, "count_0": 5,
+    "fill_cases": 50, "fill_mixed_marks_in_one_list": 10, "failed_serializations_before_good_ones": 30, "serialized_twice": 100, "fill_unset_fixed": 1, "fill_unset_variable": 1, "omitted_trailing": 5, "count_255": 1, "count_0": 5,
     "ref_bytes_equal": 400,
 }
 
@@ -112,6 +112,22 @@ def check_spec(ctx, spec):
             mech = "serialize-raises-fill"
         ctx.violation(mech, "serializing an in-domain message raised", {"spec": spec, "exc": repr(e)})
         return
+    if ctx.counters.get("roundtrips", 0) % 5 == 0:
+        # encoding is repeatable and leaves the message as it was
+        try:
+            before = msg.to_dict(extended=True) if not spec.get("fill") else None
+            again = bytes(_ser.serialize(msg))
+            ctx.count("serialized_twice")
+            if again != data:
+                ctx.violation("serialize-not-repeatable", "serializing the same message object twice gave different datagrams",
+                              {"spec": spec, "first": data[:300], "second": again[:300]})
+                return
+            if before is not None and msg.to_dict(extended=True) != before:
+                ctx.violation("serialize-mutates-message", "serializing a message changed the message", {"spec": spec})
+                return
+        except Exception as e:
+            ctx.violation("serialize-raises", "serializing an in-domain message a second time raised", {"spec": spec, "exc": repr(e)})
+            return
     ref = wire.ref_encode(tmpl, spec)
     if data != ref:
         mech = "bytes-differ-from-reference"
